@@ -144,7 +144,7 @@ func TestVfC01(t *testing.T) {
 		return
 	}
 	r := vfkit.New("C01")
-	defer r.Flush(true)
+	defer r.Finish()
 	e := vfBoot(vfConfig{Push: true, Media: true})
 	rec := vfInstallRecorder(e)
 	rng := r.Rand(1)
